@@ -95,7 +95,9 @@ PLAN["C02"] = other(
     "declared size equal to the number of items written, fields in the documented order, items numbered from 1, "
     "every number printed by numToStr, every name / label passed through escapeQuotes between double quotes (string "
     "accumulation loops summarised by rule R-STRFOLD; strings are uninterpreted atoms under an associative "
-    "concatenation, so what quote doubling does to the characters stays with the bounded check).",
+    "concatenation, so what quote doubling does to the characters stays with the bounded check); getTextgridAsStr "
+    "is proved to apply the requested text format's grammar to the dictionary prepared for saving (entries in time "
+    "order, override as span; <= 2 tiers, blank filling off) and to reject an unknown format before touching anything.",
     "Written files are well-formed and the four formats agree on the stated bounded domain; numbers are printed "
     "decodably (proved kernel).", ["c02_wellformed", "spec_pair_selfcheck"])
 PLAN["C03"] = other(
@@ -558,4 +560,8 @@ CANARIES = [
     {"name": "klatt-writer-value", "props": ["C19"], "file": "praatio/data_classes/klattgrid.py",
      "target": "praatio.data_classes.klattgrid.KlattSubPointTier.getAsText",
      "old": "outputList.append(\"        value = %s\" % repr(entry[1]))", "new": "outputList.append(\"        value = %s\" % repr(entry[0]))"},
+    {"name": "emitter-wrong-format", "props": ["C02", "C04"], "file": "praatio/utilities/textgrid_io.py",
+     "target": "praatio.utilities.textgrid_io.getTextgridAsStr",
+     "old": "        outputTxt = _tgToShortTextForm(tg)\n    elif format == TextgridFormats.JSON", "new": "        outputTxt = _tgToLongTextForm(tg)\n    elif format == TextgridFormats.JSON",
+     "config": ["k=1,format=short_textgrid,override=sym"]},
 ]
